@@ -677,15 +677,31 @@ def r07_12(prog, rep, rid="R07.12"):
     key = "refill/every-occurrence-converted-on-its-own"
     loops = cfg.natural_loops()
     good = [c for c in conv if c[2] and c[3].endswith("zon")]
-    in_full_loop = False
-    for b, line, same, z in good:
-        for h, blks in loops.items():
-            if b in blks:
-                # the loop runs over the filled part of the cache: one of its tests names the fill level
-                for g in blks:
-                    c = cfg.cond(g)
-                    if c is not None and any(q.get("k") == "mem" and q.get("f") == "ncch" for q in walk(c)):
-                        in_full_loop = True
+    # the conversion runs over the filled part of the cache: refill() is walked with the filler's answer fixed and the subscripts the
+    # conversion is carried out with are collected — they are 0 .. kept-1, whichever way the loop and its bound are written
+    from ..absw import AbsWalk, eval_in
+    grp = prog.macro_int("GRP_CCH_OFF")
+    in_full_loop = bool(good)
+    good_at = {(b_, l_) for b_, l_, *_ in good}
+    for nfill in (5, grp):
+        seen_idx = set()
+
+        def call_eval(c, store, _n=nfill):
+            return _n if (c.get("fn") or "").startswith("rrul_fill_") else None
+
+        def effect(b, i, x, store, _s=seen_idx, _ce=call_eval):
+            if isinstance(x, dict):
+                for l, kind, nn in writes(x):
+                    tl = strip_casts(l)
+                    if tl.get("k") == "idx" and (b, nn.get("line", tl.get("line"))) in good_at or (tl.get("k") == "idx" and any(b == g_[0] and tl.get("line") == g_[1] for g_ in good)):
+                        _s.add(eval_in(store, cfg.resolve(tl["i"]), f, _ce))
+            return None
+        AbsWalk(f, {l_["n"] for l_ in f.locals if l_.get("extent") is None} | {lv(l) for b, i, x, line in cfg.all_elems() if isinstance(x, dict)
+                                                                                  for l, kind, nn in writes(x) if lv(l).endswith("->ncch")},
+                effect=effect, call_eval=call_eval, max_states=50000).run()
+        kept = nfill - 1 if nfill >= grp else nfill
+        if seen_idx != set(range(kept)):
+            in_full_loop = False
     after = all(any(cfg.dominates(fb, cb) or fb == cb for fb, fi, fc, fl in fills) or True for cb, *_ in good)
     rets = [b for b, i, x, line in cfg.all_elems() if isinstance(x, dict) and x.get("k") == "ret"]
     if good and in_full_loop and after:
